@@ -1166,4 +1166,25 @@ def check_worker_loop(chk, unit):
                 function=drv["qname"], construct="reset and enqueue loop")
     # the counter is declared fresh (zero) before the enqueue loop
     chk.floor("W", 6, 6)
+    # W7: "every task executes exactly once" also rests on the queues: what is handed out is removed, and what is removed is
+    # what was handed out.  The hand-out rules of C08 (Q3, Q4) are re-checked here as premises, unless this run is itself
+    # embedded in another check.
+    if chk.tier != "embedded":
+        from ..report import Check
+        from . import c08
+        sub = Check("C08", "embedded", "other")
+        from .. import astdb as _astdb
+        lib_ = _astdb.Program().library()
+        c08.check_task_queue(sub, lib_)
+        from .c12_bounds import rule_M7
+        rule_M7(Check("C12", "embedded", "other"), lib_, gap_chk=sub, gap_rule="Q4")
+        nq = 0
+        for o in sub.obligations:
+            if o["rule"] in ("Q3", "Q4"):
+                nq += 1
+                if o["verdict"] == "VIOLATED":
+                    chk.fail("W7-" + o["rule"], o["instance"], o["where"], o["detail"], function=o.get("function", ""),
+                             construct=o.get("construct", ""))
+        chk.ok("W7", "the queues hand out each entry once: %d C08 obligations (Q3, Q4) re-checked" % nq, "src/TaskQueue.hpp")
+        chk.floor("W7", nq, 3)
 
